@@ -792,6 +792,10 @@ def x_rawlimit(p):
             before = np.array(lw.volumes, dtype=np.float64)   # exact widening: the comparison below is made on Python floats
             well = wid(0, st["col"])
             x = d(st["amount"])
+            if "first" in st:
+                # the same real well twice in one call (for a trough: two of its virtual rows)
+                well = [wid(0, st["col"]), wid(1 if p["kind"] != "plate" else 0, st["col"])]
+                x = [d(st["first"]), d(st["amount"] - st["first"])]
             exc = None
             try:
                 if st["op"] == "add":
@@ -808,7 +812,7 @@ def x_rawlimit(p):
         out = "ok"
     except Exception as e:  # noqa
         out = outcome_class(e)
-    return {"fn": "rawlimit", "id": f"{p['kind']} min={p['min']} max={p['max']} init={p['init']} steps={[(s['op'], s['col'], s['amount']) for s in p['steps']]}",
+    return {"fn": "rawlimit", "id": f"{p['kind']} min={p['min']} max={p['max']} init={p['init']} steps={[(s['op'], s['col'], s['amount'], s.get('first', '')) for s in p['steps']]}",
             "out": out, "nsteps": len(p["steps"]), "steps": steps, "above": viol_up, "below": viol_down}
 
 
